@@ -581,7 +581,7 @@ func runGrammarCheck(c *core.Ctx, gb *GrammarBind, plan GrammarPlan) {
 	if g != nil {
 		st := gb.WalkGrammarGraph(c, g, maxTok, 16)
 		reportGrammar(c, st, fmt.Sprintf("all paths <= %d tokens", maxTok))
-		c.Sample(map[string]any{"source": gb.Module+" graph, all paths", "max_tokens": maxTok, "states": len(g.Nodes)})
+		c.Sample(map[string]any{"source": gb.Module + " graph, all paths", "max_tokens": maxTok, "states": len(g.Nodes)})
 	}
 	cleanup()
 	if c.HasInternal() {
@@ -643,7 +643,7 @@ func runGrammarCheck(c *core.Ctx, gb *GrammarBind, plan GrammarPlan) {
 		}
 		add(text)
 		if i < 2 {
-			c.Sample(map[string]any{"source": "generated tree, random ignored tokens, validated by "+plan.TraceModule, "text": text})
+			c.Sample(map[string]any{"source": "generated tree, random ignored tokens, validated by " + plan.TraceModule, "text": text})
 		}
 		for m := 0; m < 4; m++ {
 			mt, _ := MutateTokens(toks, rng, plan.MutPool)
@@ -685,7 +685,6 @@ func runGrammarCheck(c *core.Ctx, gb *GrammarBind, plan GrammarPlan) {
 		}
 	}
 }
-
 
 func abs3(x int) int {
 	x %= 3
